@@ -164,6 +164,36 @@ def _norm(x):
     return x
 
 
+def zero_leaf(rng, script):
+    """make one leaf body return 0 (falsy, not None) instead of its tag"""
+    leaves = []
+
+    def walk(sc):
+        kids = [c for c in sc if c[0] in ('sub', 'map')]
+        if not kids:
+            leaves.append(sc)
+        for c in kids:
+            for ch in ([c[1]] if c[0] == 'sub' else [x[0] for x in c[1]]):
+                walk(ch)
+    for c in script:
+        if c[0] == 'sub':
+            walk(c[1])
+        elif c[0] == 'map':
+            for x in c[1]:
+                walk(x[0])
+    if leaves:
+        sc = rng.choice(leaves)
+        for c in sc:
+            if c[0] == 'ret':
+                c[1] = 0
+
+
+def has_next(roots):
+    def walk(sc):
+        return any(c[0] in ('nx', 'na') or (c[0] == 'sub' and walk(c[1])) or (c[0] == 'map' and any(walk(x[0]) for x in c[1])) for c in sc)
+    return any(walk(r['script']) for r in roots)
+
+
 def tree_info(roots):
     """nid -> dict(script, futs=[[child nids]], ret)"""
     info = {}
@@ -198,6 +228,11 @@ def pick_event(rng, evs, weights, policy, sim):
         others = [e for e in evs if not (e[0] == 'main' and e[1] in parked)]
         if parked and others:
             evs = others
+    if policy == 'gnr':
+        # hold results back so that several are pending when a next() consumer enters get_new_results
+        late = [e for e in evs if not (e[0] == 'recv' and sim.down[e[1]][0][0].name == 'RESULT')]
+        if late and rng.random() < 0.8:
+            evs = late
     if policy == 'd7b':
         # park a receiving thread inside deposit_result while the main thread of the same worker sits before
         # `if box.ready`, then let that main thread run first
@@ -229,11 +264,15 @@ def run_case(case: dict) -> dict:
     policy = case.get('policy')
     roots = case['roots']
     sim = rtsim.Sim(k, case['seed'], fine=fine)
+    if policy == 'gnr':
+        for i in range(k):
+            sim.arm_gnr_gate(i)
     lines = ['init %d %d' % (k, 0 if fine else 1)]
     dumps = [sim.dump()]
     evlog = []
     d7_hits = 0
     split_handler = False
+    gnr_calls = 0
     other_dw = []
     tainted = set()     # tasks whose wake-up count is already off by one because of a D7 double wake
     try:
@@ -246,7 +285,16 @@ def run_case(case: dict) -> dict:
         waiting = {c: None for c in range(nclients)}
         answered = {c: 0 for c in range(nclients)}
 
+        arrived = set()          # server mailbox ids whose RESULT the server has handled
+        quiescent = [False]
+        status_bad = []
+
+        def req_ok(i):
+            rq = roots[i].get('req', 'now')
+            return rq == 'now' or quiescent[0] or (isinstance(rq, int) and nev >= rq)
+
         def client_turn():
+            progress = False
             for c in range(nclients):
                 got = sum(1 for m, p in sim.clients[c].inbox if m.name in ('RESULT',))
                 if waiting[c] is not None and got > answered[c]:
@@ -254,16 +302,23 @@ def run_case(case: dict) -> dict:
                     waiting[c] = None
                 if waiting[c] is None:
                     for i in sorted(rinfo):
-                        if roots[i]['client'] == c and i not in requested[c]:
+                        if roots[i]['client'] == c and i not in requested[c] and req_ok(i):
+                            if not sim.clients[c].closed and sim.server_dead is None:
+                                st = sim.status(c, rinfo[i])
+                                want = 'DONE' if rinfo[i]['box'] in arrived else 'RUNNING'
+                                if st != want:
+                                    status_bad.append(dict(root=roots[i]['nid'], expected=want, observed=st, falsy=roots[i].get('falsy')))
                             requested[c].append(i)
                             waiting[c] = i
                             sim.request(c, rinfo[i])
+                            progress = True
                             break
                     # a request answered immediately
                     got = sum(1 for m, p in sim.clients[c].inbox if m.name in ('RESULT',))
                     if waiting[c] is not None and got > answered[c]:
                         answered[c] = got
                         waiting[c] = None
+            return progress
 
         nev = 0
         window = {i: False for i in range(k)}     # a recv woke the task parked in _process_await
@@ -271,7 +326,7 @@ def run_case(case: dict) -> dict:
             while todo and roots[todo[0]]['at'] <= nev:
                 i = todo.pop(0)
                 r = roots[i]
-                rinfo[i] = sim.submit_root(r['client'], tup(r['script']), r['nid'])
+                rinfo[i] = sim.submit_root(r['client'], tup(r['script']), r['nid'], falsy=r.get('falsy'))
                 lines.append('client %s %d' % (mfmt(r['script']), rinfo[i]['target']))
                 dumps.append(sim.dump())
                 evlog.append(['client', i])
@@ -281,13 +336,32 @@ def run_case(case: dict) -> dict:
                 if todo:
                     roots[todo[0]]['at'] = nev
                     continue
+                quiescent[0] = True          # clients that ask late ask now: RESULT was handled before REQUEST
+                while client_turn():
+                    pass
                 break
             e = pick_event(rng, evs, weights, policy, sim)
             rig = sim.workers[e[1]]
             label_before = rig.gate.label
             parked_task = rig.gate.info[0] if label_before in ('aw1', 'aw1c', 'aw2') else None
             qbefore = [tuple(a) for a in rig.w._ready_task_ids.queue]
+            if e[0] == 'server' and rig.up and rig.up[0][0].name == 'RESULT' and rig.up[0][1].return_address.worker_id == -1:
+                arrived.add(rig.up[0][1].return_address.mailbox_index)
             info = sim.do(e)
+            gnr_park = 0
+            if e[0] == 'main' and rig.gate.label == 'gnr':
+                tg = case.get('gnr_targets')
+                gnr_target = tg[gnr_calls % len(tg)] if tg else rng.randrange(4)
+                gnr_calls += 1
+            while e[0] == 'main' and rig.gate.label == 'gnr' and not rig.mdead:
+                # the main thread sits before a source line of get_new_results: before ONE of these lines (drawn per
+                # call) the receiving thread deposits the pending results (a model atom is split: oracle-only run)
+                dn = sim.down[e[1]]
+                while gnr_park == gnr_target and dn and dn[0][0].name == 'RESULT' and rig.rdead is None and rng.random() < 0.85:
+                    sim.do(('recv', e[1]))
+                    split_handler = True
+                gnr_park += 1
+                rig.gate.advance()
             nev += 1
             if e[0] == 'server':
                 lines.append('server %d %s' % (e[1], rtsim.fmt(info['asg'])))
@@ -351,7 +425,7 @@ def run_case(case: dict) -> dict:
             model_started = sorted(x for wg in ghost[:-1] for x in wg[1])
             real_cl = sorted([ri['box'], p] for i, ri in rinfo.items() for c in [roots[i]['client']] if i in requested[c]
                              and requested[c].index(i) < len([1 for m, p in sim.clients[c].inbox if m.name == 'RESULT'])
-                             for p in [[p for m, p in sim.clients[c].inbox if m.name == 'RESULT'][requested[c].index(i)]])
+                             for p in [rtsim._canon_val([p for m, p in sim.clients[c].inbox if m.name == 'RESULT'][requested[c].index(i)])])
             model_cl = sorted(x for x in ghost[-1][0] if any(x[0] == ri['box'] and i in requested[roots[i]['client']] for i, ri in rinfo.items()))
             real_nerr = sum(1 for c in sim.clients for m, p in c.inbox if m.name == 'ERROR')
             for name, mv, rv in (('observations', model_obs, real_obs), ('finished', model_fin, real_fin),
@@ -416,6 +490,17 @@ def run_case(case: dict) -> dict:
                         if item[0] in ss:
                             add({'call': 'next', 'symptom': 'repeated-slot'}, 'next() on future %d of task %d repeats slot %d' % (f, nid, item[0]), 'each slot once', value)
                         ss.append(item[0])
+        # a consumer that keeps getting empty batches: some deposited result is never handed out by next()
+        empties = {}
+        for rec in log:
+            if rec[0] == 'obs' and rec[3] == 'next' and rec[4] == []:
+                empties[(rec[1], rec[2])] = empties.get((rec[1], rec[2]), 0) + 1
+        for (nid, f), n in empties.items():
+            if n > 25:
+                allslots = list(range(len(info[nid]['futs'][f])))
+                add({'call': 'next', 'symptom': 'result-never-returned'},
+                    'task %d spins on empty next() batches of future %d (%d in a row): a deposited result is in no batch' % (nid, f, n),
+                    allslots, sorted(seen_slots.get((nid, f), [])))
         for nid, n in starts.items():
             if n > 1:
                 add({'call': '_add_task', 'symptom': 'body-ran-twice'}, 'task %d started %d times' % (nid, n), 1, n)
@@ -448,8 +533,11 @@ def run_case(case: dict) -> dict:
             if i in requested[c]:
                 pos = requested[c].index(i)
                 if pos < len(got):
-                    if got[pos] != info[r['nid']]['ret']:
-                        add({'call': 'result', 'symptom': 'wrong-root-result'}, 'client %d asked for root %d' % (c, r['nid']), info[r['nid']]['ret'], rtsim._canon_val(got[pos]))
+                    gv = got[pos]
+                    if rtsim._canon_val(gv) != info[r['nid']]['ret']:
+                        add({'call': 'result', 'symptom': 'wrong-root-result'}, 'client %d asked for root %d' % (c, r['nid']), info[r['nid']]['ret'], rtsim._canon_val(gv))
+                    elif r.get('falsy') and (gv is None or bool(gv) or not hasattr(gv, 'c07_tag')):
+                        add({'call': 'result', 'symptom': 'wrong-root-result'}, 'client %d: the falsy result object of root %d was replaced' % (c, r['nid']), 'falsy %s' % r['falsy'], repr(gv)[:80])
                     continue
             if malformed or errors:
                 continue            # an ERROR was delivered instead (the body raised / D7)
@@ -459,6 +547,8 @@ def run_case(case: dict) -> dict:
                 if starts.get(nid, 0) != 1 or nid not in rets:
                     add({'call': '_loop', 'symptom': 'deadlock'}, 'task %d did not run to completion although the system is quiescent' % nid, 'ran once and returned', dict(starts=starts.get(nid, 0), returned=nid in rets), consequence=bool(d7_hits))
                     break
+        for sb in status_bad:
+            add({'call': 'status', 'symptom': 'wrong-status'}, 'status() of root %d just before its result() request' % sb['root'], sb['expected'], sb)
         if malformed and not errors and not sim.exceptions:
             add({'call': 'client', 'symptom': 'misuse-not-reported'}, 'API misuse (%s) produced no ERROR' % malformed, 'ERROR', 'none')
         for o in other_dw:
@@ -508,14 +598,21 @@ def make_cases(ctx, n):
         for r in range(nroots):
             script, nid = g.node(rng.choice([0, 0, 1, 2]))
             client = 0 if (r == 0 or rng.random() < 0.5) else 1
-            roots.append(dict(script=script, nid=nid, client=client, at=0 if r == 0 else rng.randint(0, 60)))
+            root = dict(script=script, nid=nid, client=client, at=0 if r == 0 else rng.randint(0, 60))
+            if rng.random() < 0.35:
+                root['falsy'] = rng.choice(['circuit', 'int', 'str', 'list', 'tuple'])
+            root['req'] = rng.choice(['now', 'now', rng.randint(5, 120), 'end'])
+            roots.append(root)
+        if rng.random() < 0.15:
+            zero_leaf(rng, roots[0]['script'])
         malformed = None
         if rng.random() < 0.12:
             roots[0]['script'], malformed = g.malform(roots[0]['script'])
         fine = rng.random() < 0.7
         weights = dict(main=rng.choice([1, 1, 3, 6]), recv=rng.choice([1, 3, 6]), server=rng.choice([1, 3, 6]))
         cases.append(dict(k=k, roots=roots, seed=rng.randrange(1 << 30), fine=fine, weights=weights,
-                          policy=(lambda r: 'd7' if (fine and r < 0.1) else 'd7b' if (fine and k >= 2 and r < 0.17) else None)(rng.random()),
+                          policy=(lambda r: 'd7' if (fine and r < 0.1) else 'd7b' if (fine and k >= 2 and r < 0.17)
+                                  else 'gnr' if (fine and r < 0.30 and has_next(roots)) else None)(rng.random()),
                           malformed=malformed))
     return cases
 
@@ -533,7 +630,7 @@ def report(ctx, case, res, source):
     if st.get('d7'):
         ctx.count('runs with a D7 double wake')
     if st.get('split_handler'):
-        ctx.count('runs with a RESULT handler split inside deposit_result')
+        ctx.count('parked-thread runs (deposit_result or get_new_results split; oracle-only)')
     if st.get('retried_after_gate_timeout'):
         ctx.count('cases retried after a gate timeout')
     if 'sample' in res:
@@ -638,6 +735,7 @@ def run(ctx: vf.Ctx):
         proved=['C07_task_conservation (both variants)', 'C07_slot_values (both variants; await complete and in argument order, next values, client root result)',
                 'C07_next_batches (+_complete)', 'C07_result_deposited_once', 'C07_wake_once (atomic registration)',
                 'C07_no_deadlock_partial (no lost wake-up, atomic registration)',
+                'C07_get_new_results_split_complete / _copy_refuted (statement-level get_new_results vs deposits)',
                 'C07_wake_once_refuted (code as it is: D7)'],
         not_proved=['C07_no_deadlock_full (Definition; the global descent is missing; oracle + exhaustive model exploration of 4 small scenarios)'],
         correspondence_only=['server relay (schedule_tasks/send_result_down observed, assignment replayed)'],
